@@ -11,8 +11,8 @@ CONSTANTS
   TdFlags = {FALSE}
   InVecs <- VecsOne
   OrderKinds = {"IBHO"}
-  ActSchemes <- SchemesMixed
-  LinkCaps = {4}
+  ActSchemes <- SchemesLinear
+  LinkCaps = {3}
   MinLinks = 2
   Canonical = TRUE
   AcyclicOnly = TRUE
